@@ -217,7 +217,7 @@ func c11Gen(rt *rapid.T) c11Case {
 		switch form {
 		case "value":
 			dt := rapid.SampledFrom(c12Dtypes).Draw(rt, "dtype")
-			shape := genShape(0, 3, 4, 40).Draw(rt, "shape")
+			shape := genShape(0, 3, 4, 600).Draw(rt, "shape")
 			backing := genBits(dt, prod(shape)).Draw(rt, "values")
 			typed := rapid.Bool().Draw(rt, "typed")
 			if dt == tensor.Uint64 && !typed && !kfOpen("KF-C12-raw-uint64") {
@@ -270,7 +270,7 @@ func c11Gen(rt *rapid.T) c11Case {
 			c.valid = false
 		}
 	case "ConstantOfShape":
-		shape := genShape(1, 4, 5, 300).Draw(rt, "shape")
+		shape := genShape(1, 4, 5, 1500).Draw(rt, "shape")
 		s64 := make([]int64, len(shape))
 		for i, d := range shape {
 			s64[i] = int64(d)
@@ -326,7 +326,7 @@ func c11Gen(rt *rapid.T) c11Case {
 	case "Cast":
 		src := rapid.SampledFrom(c11Numeric).Draw(rt, "src")
 		dst := rapid.SampledFrom(c11Numeric).Draw(rt, "dst")
-		shape := genShape(0, 3, 4, 24).Draw(rt, "shape")
+		shape := genShape(0, 3, 4, 400).Draw(rt, "shape")
 		n := prod(shape)
 		in := reflect.MakeSlice(reflect.SliceOf(src.Type), n, n)
 		out := reflect.MakeSlice(reflect.SliceOf(dst.Type), n, n)
